@@ -183,7 +183,7 @@ func errRes(err error) string {
 	return "err"
 }
 
-func run(sc vh.Scenario, dir string) (tr vh.Trace) {
+func run(sc vh.Scenario, dir string, tr *vh.Rec) {
 	c := newConc(sc.Seed)
 	tr.Conc = map[string]string{}
 	for k, v := range c.ch {
@@ -211,6 +211,7 @@ func run(sc vh.Scenario, dir string) (tr vh.Trace) {
 				ev[k] = v
 			}
 		}
+		tr.Begin(ev)
 		path := vh.SeqSeq(st["p"])
 		name := string(c.bytesOf(vh.StrSeq(st["n"])))
 		key := c.bytesOf(vh.StrSeq(st["k"]))
@@ -352,7 +353,7 @@ func run(sc vh.Scenario, dir string) (tr vh.Trace) {
 			s2.Close()
 		}
 		os.RemoveAll(cp)
-		tr.Ev = append(tr.Ev, ev)
+		tr.Emit(ev)
 		if strings.HasPrefix(res, "panic") || store == nil {
 			break
 		}
@@ -389,5 +390,5 @@ func names(b db.Bucket, c *conc) (string, interface{}) {
 
 func main() {
 	flag.Parse()
-	vh.RunAll(vh.LoadScenarios(), run)
+	vh.Main(run)
 }
